@@ -116,7 +116,7 @@ def judge_pair(ctx, before, after, label, rng, npoints=6, big=False):
         try:
             rb = P.to_rational(before)
             ra = P.to_rational(after)
-            ok, worst = P.same_function(rb, ra, rel_tol=Fraction(1, 10 ** 11))
+            ok, worst = P.same_function(rb, ra, P.to_rational_abs(before), P.to_rational_abs(after), rel_tol=Fraction(1, 10 ** 11))
             ctx.count("polynomial_identities_checked")
             if worst > 0:
                 ctx.count("polynomial_identities_up_to_rounding")
